@@ -63,6 +63,12 @@ Theorem C01_append_block : forall s d e, Inv s -> ~ In d (f_data s ++ f_exts s) 
   f_exts (f_append s d e) = (if needs_ext (length (f_data s)) then f_exts s ++ [e] else f_exts s).
 Proof. exact append_inv. Qed.
 
+(* the model's decision when to take an extension block is the library's (decision slice regenerated from adfFileCreateNextBlock) *)
+Theorem C01_append_decision_is_librarys : forall n : nat,
+  (d_adfFileCreateNextBlock (Z.of_nat n) = 1 <-> needs_ext n = true) /\
+  (d_adfFileCreateNextBlock (Z.of_nat n) = 0 <-> (n < SLOTS)%nat).
+Proof. exact append_decision_is_librarys. Qed.
+
 Example C01_filemap_example :
   let l := map Z.of_nat (seq 1000 150) in
   find_block (enc_hdr l) (enc_exts l [5000; 5001]%Z) 149 = Some 1149%Z /\ nexts 150 = 2%nat /\ nexts 72 = 0%nat /\ nexts 73 = 1%nat /\ nexts 144 = 1%nat /\ nexts 145 = 2%nat.
@@ -76,3 +82,4 @@ Print Assumptions C01_geometry_realsize.
 Print Assumptions C01_block_found_where_sought.
 Print Assumptions C01_extension_count_is_librarys.
 Print Assumptions C01_append_block.
+Print Assumptions C01_append_decision_is_librarys.
